@@ -143,6 +143,7 @@ def standInDecompress (x : Bytes) : Bytes := x.drop 4
 
 def needsBeve : String → Option Bool
   | "vec" => some false
+  | "consume" => some false    -- pull_consume_async with a consumer that stalls (schedule only: same bytes)
   | "value" => some true
   | "typed" => some true
   | "complex" => some true
@@ -172,7 +173,7 @@ def hl (idx client puller kind comp chunk stream evs end_ : String) : String :=
         | none => idx ++ " err"
         | some bytes =>
           let logical := if comp = "1" then standInDecompress bytes else bytes
-          if puller = "vec" then
+          if puller = "vec" || puller = "consume" then
             joinSp ([idx, "ok", toString logical.length] ++ (if known then [toString (fnv logical).toNat] else []))
           else idx ++ " ok"
   | _, _, _, _ => idx ++ " bad-op"
